@@ -833,7 +833,9 @@ EXPORT errno_t _wcsnorm_reorder_s_chk(wchar_t *restrict dest, rsize_t dmax,
         if (cc_pos) {
             size_t i;
 
-            if (unlikely(dmax - cc_pos <= 0)) {
+            if (unlikely(dmax <= cc_pos)) {
+                if (seq_ext)
+                    free(seq_ext);
                 handle_werror(orig_dest, orig_dmax,
                               "wcsnorm_reorder_s: "
                               "dmax too small",
